@@ -13,6 +13,7 @@ o0 = blueprint /c11/obj (has heart_beat), o1 = blueprint /c11/nohb (no heart_bea
 import NV.Common.Proto
 import NV.C11.Model
 import NV.C11.Spec
+import NV.C11.Branches
 
 namespace NV.C11
 
@@ -143,10 +144,16 @@ def runJudge (body : List String) : List String :=
   | [] => ["ok"]
   | vs => vs.map (fun v => s!"bad {v}")
 
+/-- `branches` mode: one line per branch tag taken by the case -/
+def runBranches (lines : List String) : List String :=
+  let p := parseCase lines
+  if !p.bad.isEmpty then [] else branchTags (scriptsOf p) p.cmds
+
 def main (mode : String) : IO Unit :=
   match mode with
   | "model" => serve runModel
   | "judge" => serve runJudge
+  | "branches" => serve runBranches
   | _ => IO.eprintln s!"C11: unknown mode {mode}"
 
 end NV.C11
